@@ -154,20 +154,21 @@ def metatypeTraits (r : Reg) (id : Nat) : Option Named :=
   if id > TypeTab.metaLookup.2 ∨ id < TypeTab.metaLookup.1 then none
   else r.metas[id - TypeTab.metaBase]?
 
+/-- `sizeof(T)` for a C type named in the generated tables: the number clang computed (Generated `sizeofC`) -/
+def cSize (ct : String) : Option Nat := (TypeTab.sizeofC.find? (·.1 = ct)).map (·.2)
+
 /-- size stored by `_core_init/_scalar_init`: `sizeof(T)` narrowed to the table's size field -/
 def tableSize (tab : List (Nat × String × Nat)) (id : Nat) : Option Nat :=
   match tab.find? (·.1 = id) with
-  | some (_, ct, width) => (abiSize ct).map fun s => s % 2 ^ width
+  | some (_, ct, width) => (cSize ct).map fun s => s % 2 ^ width
   | none => none
 
-/-- the traits functions of the static managed types (`mpt_identifier_traits()` ..): defined outside
-    type_traits.c; size of the C type, init and fini set -/
+/-- the traits functions of the static managed types (`mpt_identifier_traits()` ..., defined outside type_traits.c):
+    the record `{ init, fini, sizeof(T) }` the translator read from the function `mpt_type_traits` returns for the id -/
 def staticDesc (id : Nat) : Option Desc :=
-  let ct := if id = TypeId.TypeIdentifier then "struct mpt_identifier"
-    else if id = TypeId.TypeArray then "struct mpt_array"
-    else if id = TypeId.TypeCommand then "struct mpt_command"
-    else "void *"
-  (abiSize ct).map fun s => { size := s, init := true, fini := true }
+  match TypeTab.staticTraits.find? (·.1 = id) with
+  | some (_, _, ct, i, f) => (cSize ct).map fun s => { size := s, init := i, fini := f }
+  | none => none
 
 def plain (size : Nat) : TraitsVal := .known { size := size, init := false, fini := false }
 
@@ -190,10 +191,10 @@ def traitsWalk (r : Reg) (id : Nat) : List (String × Nat × Nat) → Option Tra
       else if kind = "vector" then
         -- `_iovec_init`: single entries, and a vector of `sizeof(vectorCType)` for every scalar of the table
         match TypeTab.vectorExtra.find? (·.1 = id - TypeId._TypeVectorBase) with
-        | some (_, ct) => (abiSize ct).map plain
+        | some (_, ct) => (cSize ct).map plain
         | none =>
           match tableSize TypeTab.scalarSizes (id - TypeId._TypeVectorBase + TypeId._TypeScalarBase) with
-          | some _ => (abiSize TypeTab.vectorCType).map plain
+          | some _ => (cSize TypeTab.vectorCType).map plain
           | none => none
       else if kind = "interface" then (interfaceTraits r id).map (·.traits)
       else if kind = "dynamic" then (r.dyn[id - TypeTab.dynamicBase]?).map plain
@@ -206,31 +207,24 @@ def traitsWalk (r : Reg) (id : Nat) : List (String × Nat × Nat) → Option Tra
 /-- `mpt_type_traits(type)` -/
 def traits (r : Reg) (id : Nat) : Option TraitsVal := traitsWalk r id TypeTab.dispatch
 
-/-- `mpt_alias_typeid(desc, &end)`: (type id, offset of `end`) -/
+/-- the name part of a description `name [ws] : [ws] symbol`: the text in front of the first `:` without its trailing
+    white space -/
+def aliasKey (desc : Name) (k : Nat) : Name := ((desc.take k).reverse.dropWhile isSpaceC).reverse
+
+/-- `mpt_alias_typeid(desc, &end)`: (type id, offset of `end`).  Without a separator the whole text is looked up
+    (short names allowed); with one, the first `len` characters, `len` = length of the name part. -/
 def aliasTypeid (r : Reg) (desc : Name) : Res (Nat × Nat) :=
-  let sepAt := desc.findIdx? (· = 58)
-  -- trailing white space in front of the separator is not part of the name
-  let rec trim (len : Nat) (fuel : Nat) : Option Nat :=
-    match fuel with
-    | 0 => some len
-    | fuel + 1 =>
-      if len = 0 then none
-      else if isSpaceC (desc.getD (len - 1) 0) then
-        if len - 1 = 0 then none else trim (len - 1) fuel
-      else some len
-  let len : Option Int := match sepAt with
-    | some k => if k = 0 then none else (trim k k).map fun n => (n : Int)
-    | none => some (-1)
-  match len with
-  | none => .err .BadValue
-  | some l =>
-    match namedTraits r desc l with
+  match desc.findIdx? (· = 58) with
+  | none =>
+    match namedTraits r desc (-1) with
     | none => .err .BadValue
-    | some e =>
-      let endOff := match sepAt with
-        | some k => k + 1 + ((desc.drop (k + 1)).takeWhile isSpaceC).length
-        | none => desc.length
-      .ok (e.id, endOff)
+    | some e => .ok (e.id, desc.length)
+  | some k =>
+    let key := aliasKey desc k
+    if key = [] then .err .BadValue else
+    match namedTraits r desc key.length with
+    | none => .err .BadValue
+    | some e => .ok (e.id, k + 1 + ((desc.drop (k + 1)).takeWhile isSpaceC).length)
 
 /-- `mpt_type_int` / `mpt_type_uint` -/
 def typeInt (size : Nat) : Nat := ((TypeTab.typeInt.find? (·.1 = size)).map (·.2)).getD 0
